@@ -101,6 +101,10 @@ func skipTag(data []byte, wireType csproto.WireType) (skip int, err error) {
 		if err != nil {
 			return 0, err
 		}
+		if size > uint64(len(data)) {
+			// Also prevents a negative skip for sizes that overflow an int
+			return 0, io.ErrUnexpectedEOF
+		}
 		skip = int(size) + n
 	case csproto.WireTypeFixed32:
 		skip = 4
